@@ -21,6 +21,19 @@ func genKVHistoryCase(modes []int, segs []int64, minB, maxB int, reopenWeight in
 			maxSteps = 14
 			buckets = buckets[:1]
 		}
+		if rapid.IntRange(0, 7).Draw(t, "treeshape") == 5 {
+			// tree-shape case: one bucket, 20-70 keys inserted in a structured order (see genTreeShapeSteps), then a
+			// short ordinary history (deletes, expired puts, overwrites) on the same keys
+			keys = genKeys(keyAlphabet, 20, 70, 3).Draw(t, "tskeys")
+			buckets = buckets[:1]
+			if c.Cfg.Seg < 1024 {
+				c.Cfg.Seg = 1024
+			}
+			c.Steps = append(c.Steps, genTreeShapeSteps(t, buckets[0], keys)...)
+			maxSteps = 6
+			shape.Kind = "bulk"
+			c.Extra = map[string]interface{}{"treeshape": true}
+		}
 		n := rapid.IntRange(1, maxSteps).Draw(t, "nsteps")
 		var clk *clockGen
 		if rapid.IntRange(0, 9).Draw(t, "clocked") < 3 {
@@ -299,6 +312,9 @@ func runKVModelCase(c Case, st *Stats, withSearch bool) error {
 	}
 	if maxKeys > 40 {
 		classes = append(classes, "bucket-with-multi-level-tree")
+	}
+	if c.Extra["treeshape"] != nil {
+		classes = append(classes, "tree-shape-insertion-order")
 	}
 	classes = append(classes, fmt.Sprintf("mode%d-rw%d", c.Cfg.Mode, c.Cfg.RW))
 	st.Eval(c.JSON(), nontrivial, classes...)
